@@ -1,6 +1,10 @@
 package h
 
-import "encoding/json"
+import (
+	"encoding/json"
+	"fmt"
+	"strings"
+)
 
 // substitute replaces column references x1..x3 of a call expression by literals
 // (scalar arguments only).
@@ -160,4 +164,27 @@ func jsonDecoded(doc map[string]any) map[string]any {
 		return doc
 	}
 	return out
+}
+
+// RoundTrip beyond TLC's integers: DECODE(ENCODE(v, b), b) = v is stated for every scalar; the specification checks it on the
+// values TLC can hold, this driver on doubles of large magnitude, tiny ones, negative zero's neighbours and long strings.
+func init() {
+	Drivers["C18:bigroundtrip"] = func(emit func(Verdict)) {
+		vals := []any{1e19, 1e21, -1e21, 9.3e18, 9223372036854775808.0, -9223372036854775808.0, 1e300, -1e300, 1.7976931348623157e308, 5e-324, 1e-7, -1e-300,
+			4503599627370496.5, 9007199254740993.0, strings.Repeat("long ", 2000), "\x00\xffé ", true, false}
+		for _, base := range []string{"base64", "base32", "hex"} {
+			for i, val := range vals {
+				sql := "SELECT DECODE(ENCODE(v, '" + base + "'), '" + base + "') AS r, ENCODE(v, '" + base + "') = ENCODE(v, '" + base + "') AS same FROM t"
+				sig := []string{"fn:encode", "fn:decode", "bigroundtrip", "base:" + base}
+				v := Verdict{OK: true, SQL: sql, Sig: sig, Execs: 1, Nontrivial: true}
+				out := Run(map[string]any{"t": []any{map[string]any{"v": val}}}, sql, false)
+				want := []any{map[string]any{"r": val, "same": true}}
+				if out.Panic != nil || out.Err != nil || !ExactEqual(any(out.Rows), any(want)) {
+					v = fail("result", sql, sig, "v = %v: want %s got %s", val, Canon(any(want)), out.Describe())
+				}
+				v.Key, v.Case = fmt.Sprintf("%s/%d", base, i), Node{"sql": sql, "i": i}
+				emit(v)
+			}
+		}
+	}
 }
